@@ -125,6 +125,7 @@ func runC08(e *Engine, tier Tier) *PropRun {
 		}
 		return e.contractFor(fn, opts) != nil
 	})
+	e.prepareExempt("C08", fns, opts)
 	rs = append(rs, e.verifyAll(fns, opts, nil)...)
 	return &PropRun{
 		Results: rs, FUC: fucList(rs),
